@@ -9,7 +9,7 @@ from tools.extract_facts import lstr, llist, write_if_changed
 REGEXES = ["_PERCENT_RE", "_SCHEME_RE", "_URI_RE", "_TARGET_RE", "_IPV4_RE", "_IPV6_RE", "_IPV6_ADDRZ_RE",
            "_BRACELESS_IPV6_ADDRZ_RE", "_ZONE_ID_RE", "_HOST_PORT_RE"]
 # sha1(pattern + "|" + flags) of the text each hand matcher in lean/U3/Model/Url.lean was written for
-# (urllib3 2.3.0).  A difference is not a violation: harness/props/c14.py escalates the exhaustive
+# (urllib3 2.3.0 + the `\Z` anchoring of _HOST_PORT_RE / _IPV6_ADDRZ_RE).  A difference is not a violation: harness/props/c14.py escalates the exhaustive
 # short-string correspondence when `facts["urlRegexChanged"]` is non-empty.
 WRITTEN_FOR = {
     "_PERCENT_RE": "1c31f87a06212891364dc7d11c01740ecf122ba8",
@@ -18,10 +18,10 @@ WRITTEN_FOR = {
     "_TARGET_RE": "790cc07c73c6abd70cf8259e6188ffc0afbfa18f",
     "_IPV4_RE": "4d2d27dca7d2781001119daed2f4522d601c297c",
     "_IPV6_RE": "9d65efe6e6d078ed74fda6e18eec1762f302b622",
-    "_IPV6_ADDRZ_RE": "7a3d448ac4c4b7957f1959587fc602ed80f5f98f",
+    "_IPV6_ADDRZ_RE": "7d5bfbad6a47cb6bd2e3431f968a9abf8f4010c1",
     "_BRACELESS_IPV6_ADDRZ_RE": "aa27d278e63054a67503d3c052c4d4c2f48db435",
     "_ZONE_ID_RE": "5799bd86bf009cf1b258e47b0acb0314839252f8",
-    "_HOST_PORT_RE": "f6537aff42d656389452fc38ff37dbf414e26a04",
+    "_HOST_PORT_RE": "67272a847a1d1f339829774451d07963d388e2b3",
 }
 
 
